@@ -68,6 +68,7 @@ type SimConn struct {
 	AfterEnd     int // transport operations issued after EOF / break / close
 	Wedged       bool
 	Deadlines    int
+	IdleMs       int64 // simulated time the client let pass on this connection
 	FaultFired   map[string]int
 	EmptyReads   int
 	Started      bool
@@ -388,6 +389,7 @@ func (c *SimConn) idle(ms int) {
 		return
 	}
 	c.FaultFired["client-idle"]++
+	c.IdleMs += int64(ms)
 	d := time.Duration(ms) * time.Millisecond
 	simSleepUntil.Store(time.Now().Add(d).UnixNano())
 	simSleepers.Add(1)
